@@ -28,7 +28,8 @@ GENS = {"dag": defs.gen_dag, "loop": defs.gen_loop}
 def monitors(flags=None):
     flags = flags or {}
     ms = [ledger.Ledger(check_ctx=flags.get("ctx", True)), status.StatusMonitor(), immut.AppendOnly(),
-          purity.KeyScan(), items.ItemsMonitor(), items.ArrivalAtRunningItems(), rerun.RerunMon()]
+          purity.KeyScan(), items.ItemsMonitor(), items.ArrivalAtRunningItems(), items.RearrivalAtRunningTask(),
+          rerun.RerunMon()]
     if flags.get("double_poll", True):
         ms.append(purity.DoublePoll())
     return ms
